@@ -53,6 +53,16 @@ def safe_dump(text):
 def _stmts_diff(old_body, new_body, out):
     od = [ast.dump(s) for s in old_body]
     nd = [ast.dump(s) for s in new_body]
+    if len(od) == len(nd):
+        # same number of statements: compare position by position (a sequence matcher can pair up
+        # the wrong twins when a body holds identical statements)
+        for o, n, do, dn in zip(old_body, new_body, od, nd):
+            if do == dn:
+                continue
+            if type(o) is type(n) and _descend(o, n, out):
+                continue
+            out.append(([o], [n]))
+        return
     sm = difflib.SequenceMatcher(a=od, b=nd, autojunk=False)
     for tag, i1, i2, j1, j2 in sm.get_opcodes():
         if tag == "equal":
@@ -580,6 +590,14 @@ class Judge:
         for d in P2f:
             if d["line"] is None or d["line"] < region_start or d["line"] >= region_start + len(adds):
                 got[dkey(d)] += 1
+        # an ignore comment that named the diagnostic just fixed is now unused: a legitimate new
+        # unused_ignore report (only when that code is enabled), not collateral damage
+        new_lines = pylines(new_text)
+        for k in [k for k in got if k[3] == "unused_ignore" and k not in expect]:
+            ln = k[1]
+            if ln is not None and 1 <= ln <= len(new_lines) and ("ignore[%s]" % code) in new_lines[ln - 1]:
+                del got[k]
+                self.stats["stale_ignore_after_fix"] += 1
         if code in ASYNQ_MERGE or code in ASYNQ_WRAP:
             # batching yields, or adding one, legitimately changes the neighbouring yield-batching
             # diagnostics (they are about which yields could be combined)
